@@ -20,6 +20,12 @@ RULE = ("kinds: enum (all indices 0..C(n,k)-1 through the real get_combination_a
         "recording or adversarial stub rng: triples distinct, in range, complete when max_combos >= C(n,3)). "
         "Non-trivial: C(n,k) >= 2 and index in range (enum: C(n,k) >= 2; use: n_thetas >= 3).")
 THEOREMS = {
+    "C15_model_is_source_loops": "round-1 link, kept: the model's three loops equal, iteration by iteration, the loop bodies / conditions py2coq re-reads from generate_combination_at_sorted_index (Generated/SrcArith.v); subsumed by the whole-function link below",
+    "C15_model_is_source_generate_combination_at_sorted_index_any_n": "the Gallina translation of the WHOLE generator generate_combination_at_sorted_index regenerated from /repo's scoring/gaussian_dbal.py on this run (Generated/SrcUnrank.v: the product loop over zip(range(n, n-k, -1), range(1, k+1)), `for k in range(k, 0, -1)` with the loop variable shadowing the parameter, the `while current_index - n_ck > index` loop on an explicit fuel parameter, every // and % checked = ZeroDivisionError tag 8, `yield n`) equals the model unrank index n (Z.to_nat k) for ALL integers index, n, k and every fuel > n + 1, wherever the model's own fuel is not exhausted",
+    "C15_model_is_source_generate_combination_at_sorted_index": "the same with the model-fuel hypothesis discharged by C15_fuel_never_exhausted: for every n >= 0, EVERY index (in range or not), every integer k (k <= 0 yields nothing) and every fuel > n + 1 the translated generator = unrank, including the ZeroDivisionError cases",
+    "C15_model_is_source_get_combination_at_sorted_index": "the translated wrapper get_combination_at_sorted_index (tuple(...) of the translated generator) = unrank under the same hypotheses",
+    "C15_model_is_source_get_combination_at_sorted_index_no_fuel_hypothesis": "instance at the explicit fuel n + 2: for all n >= 0, all index, all k the translated wrapper IS unrank index n k - no hypothesis about fuel remains on the property's domain",
+    "C15_source_unrank_ok_descending_rank": "clauses (a)-(c) stated on the translated source: for n >= 0, 0 <= index < C(n,k), fuel > n + 1 the translated get_combination_at_sorted_index returns Ok c with length k, strictly descending within [0,n), rank c = index",
     "C15_binomial_is_factorial_quotient": "the Pascal-recursion binomial used in all statements satisfies C(n,k) k! (n-k)! = n!",
     "C15_init_is_binomial": "the product loop computes C(n,k) for all n>=0, all k (every // exact)",
     "C15_mod_line_is_noop": "in every reachable loop state the line n_ck -= n_ck % k subtracts 0",
@@ -46,7 +52,21 @@ ASSUMPTIONS = [
 EXPLANATION = ("Model: Model/Unrank.v (the generator, statement by statement, incl. the `n_ck -= n_ck % k` line), "
                "Model/Binom.v (binomial, rank, descending-below, tuple order, the use-site triples). All theorems are "
                "for all n >= 0 and ALL k, no _partial. Abstracted at the use site: everything after the triples are "
-               "formed (the score arithmetic belongs to C05); rng.choice enters as a recorded answer.")
+               "formed (the score arithmetic belongs to C05); rng.choice enters as a recorded answer. "
+               "SOURCE LINK (C15_model_is_source_*): generate_combination_at_sorted_index is re-translated as ONE function by "
+               "harness/py2gal.py on every run (configuration C15_GENERATE in harness/src_functions.py, output "
+               "Generated/SrcUnrank.v), and so is its wrapper get_combination_at_sorted_index (C15_GET); the theorems prove "
+               "the hand-written model Unrank.unrank EQUAL to the translation (k : Z mapped by Z.to_nat) for n >= 0, every "
+               "index and k and every fuel > n + 1; C15_fuel_never_exhausted discharges the fuel of the model. The loops, the "
+               "shadowing of k, the while test, every arithmetic statement (incl. `n_ck -= n_ck % k`, to which the link IS "
+               "sensitive although it subtracts 0 on the domain: without it the translation differs from the model outside "
+               "the reachable states and the proof fails), the checked divisions and the yield come from the translation. "
+               "TRUSTED by the link: the translator (its rendering of for / while-on-fuel / checked // and % / generator "
+               "into Lib/PyRt.v: res_fold, res_while, checked_div, checked_mod; the explicit fuel stands for termination, "
+               "Err 97 is not a Python behaviour) and exactly these primitives: range(a, b, -1) = range_down a b "
+               "(a, a-1, ..., b+1), range(a, b) = range_up a b (a, ..., b-1), zip(a, b) = List.combine (up to the shorter), "
+               "tuple(g) = the list of g's items, and the call generate_combination_at_sorted_index(i, n, k) = the "
+               "translated generator on the same fuel. The differential correspondence exercises these on the real code.")
 
 _MAXK_EXH = 4
 
